@@ -119,6 +119,8 @@ class CondSpace:
                             pts.append(("n", n + 1))
                         elif not isint or nxt - n > 1:
                             pts.append(("n", (n + nxt) / 2 if not isint else n + 1))
+                if isint:
+                    pts = [p_ for p_ in pts if p_[1] >= 0]      # len(...) is never negative
                 if float("inf") in nums:
                     pts.append(("n", float("inf")))
                     if not fin:
